@@ -37,8 +37,8 @@ theorem ak_segAccept (e : Ep) (f t : Nat) (c d : Bytes) (o : List Out) :
   unfold segAccept
   simp only []
   split
-  · rw [ak_checkSessTerm]; simp [sendMessage, kaReset, idleReset]
-  · simp [sendMessage, kaReset, idleReset]
+  · rw [ak_checkSessTerm]; simp [sendMessage, sendReady, kaReset, idleReset]
+  · simp [sendMessage, sendReady, kaReset, idleReset]
 
 /-- `hr`: the receive invariant of the state before this segment was appended to `processed` -/
 theorem ak_onSegment (e0 : Ep) (flags tid : Nat) (ext data : Bytes) (hr : RxInv e0) :
@@ -135,7 +135,7 @@ theorem acks_step_nonrx (e : Ep) (ev : Ev) (h : ∀ c, ev ≠ .rx c) : acksOf (s
     · split
       · rfl
       · simp
-  | pump n => simp only []; split <;> first | rfl | simp
+  | pump n => simp only []; split <;> (try split) <;> first | rfl | simp
   | rxEof => simp only []; split <;> first | rfl | simp
   | keepaliveTimer =>
     simp only []
